@@ -276,6 +276,25 @@ def gen_changeset(rng, tree: TreeModel, classes, swarm, ident, max_ops=None, all
     Returns (record, tree_after | None).  tree_after is None when the composite
     fails naturally."""
     t = tree.copy()
+    if not allow_bad and rng.random() < swarm.get("ignored_p", 0.0):
+        # a change set touching only ignored resources ('*~', '*.pyc'):
+        # rope performs it, clears redo, but does not record it
+        ops = []
+        for _ in range(rng.randint(1, 2)):
+            ign = [p for p in t.file_paths() if p.endswith("~") or p.endswith(".pyc")]
+            if ign and rng.random() < 0.5:
+                op = ["edit", rng.choice(ign), gen_text(rng)]
+            else:
+                parent = rng.choice(t.dirs())
+                name = rng.choice(NAMES) + rng.choice([".py~", ".pyc", "~"])
+                p = f"{parent}/{name}" if parent else name
+                if t.exists(p):
+                    continue
+                op = ["mkfile", p]
+            t.apply(op)
+            ops.append(op)
+        if ops:
+            return {"id": ident, "desc": "cs%d" % ident, "ops": ops}, t
     n = rng.randint(1, max_ops or swarm.get("max_ops", 5))
     ops = []
     recent = []
